@@ -18,6 +18,16 @@ RULE = ("design: MCDriver (restart from any result, chains, maxcor reduced; C06_
         "uninterrupted run up to rounding - merged traces validated by TLC against Equiv.tla; distinct = (run, split/chain)")
 
 
+def _roundoff_tail(p, tail, rfull):
+    """Position of the uninterrupted run's tail from which the objective is within round-off of its final value:
+    from there on the two runs may stop at different evaluations (Roundoff excuse of Equiv.tla)."""
+    ffin = float(rfull.fun)
+    for i, (kind, pt) in enumerate(tail):
+        if kind == "f" and abs(float(p.fun(pt)) - ffin) <= 1e-11 * (1.0 + abs(ffin)):
+            return {i: ("Roundoff",)}
+    return {}
+
+
 def splits(spec):
     import warnings
 
@@ -77,7 +87,8 @@ def splits(spec):
         x_k = rk.x
         anchored = bool(sk.shape[0] > 0 and any(np.array_equal(x_k - pt[1], sk[-1]) for pt in full.pts[:mark]))
         out["traces"].append(("continuation", k, equiv.merge("C06_Continuation", False, tail, lr.pts, None,
-                                                             limit=spec.get("cmp", 6), rtol=1e-6), anchored))
+                                                             limit=spec.get("cmp", 6), rtol=1e-6,
+                                                             excuses=_roundoff_tail(p, tail, rfull)), anchored))
     # chain of restarts: stop at k1 < k2 < ... and continue; compare the last leg with the uninterrupted run
     ks = sorted(set(int(v) for v in np.linspace(1, max(1, rfull.nit - 1), num=min(4, rfull.nit - 1))))
     ck, mark, ok = None, 0, True
@@ -96,13 +107,23 @@ def splits(spec):
         rr, lr = run_to(K, ck=ck)
         tail = full.pts[mark:]
         out["traces"].append(("chain", len(ks), equiv.merge("C06_Chain", False, tail, lr.pts, None,
-                                                            limit=spec.get("cmp", 6), rtol=1e-5), anchored))
+                                                            limit=spec.get("cmp", 6), rtol=1e-5,
+                                                            excuses=_roundoff_tail(p, tail, rfull)), anchored))
     return out
+
+
+# split points that exposed a defect in the past (kept in every tier)
+REGRESSION_SPECS = [
+    {"family": "qpcos", "n": 3, "pseed": 553559192, "cond": 1.8305305001235868, "kmax": 7, "cmp": 6,
+     "kwargs": {"maxcor": 10, "ftol": 0.0, "gtol": 1e-10, "maxiter": 13, "maxfun": 500, "maxls": 20}},
+    {"family": "qpcos", "n": 8, "pseed": 39521919, "cond": 26.28724205465373, "kmax": 7, "cmp": 6,
+     "kwargs": {"maxcor": 10, "ftol": 0.0, "gtol": 1e-10, "maxiter": 8, "maxfun": 500, "maxls": 20}},
+]
 
 
 def specs(ctx):
     rng = np.random.default_rng([ctx.seed, 6])
-    out = []
+    out = list(REGRESSION_SPECS)
     # continuation is compared "up to rounding": well-conditioned smooth families only (rounding of the
     # reconstructed history is amplified by the condition number of the problem)
     fams = problems.CONVEX + ["rosenbrock", "qpcos", "styblinski_tang"]
